@@ -1,2 +1,3 @@
 import PxProofs.C16
 import PxProofs.C20
+import PxProofs.C18
